@@ -430,7 +430,10 @@ def actual_errors(v, st, prefix=()):
     span = None
     if isinstance(sp, dict) and sp.get("_v") == "Some":
         o = sp["0"]
-        span = o.data if isinstance(o, Opaque) else ("?", repr(o))
+        if isinstance(o, L):
+            span = ("in", o.name)        # an input span that was moved around but never looked into
+        else:
+            span = o.data if isinstance(o, Opaque) else ("?", repr(o))
     elif isinstance(sp, L):
         d = st.decisions.get(sp.name + "#d")
         span = ("in", sp.name + ".Some.0") if d == 1 else (None if d == 0 else ("lazy", sp.name))
